@@ -146,12 +146,9 @@ impl<M: MovingAverageConstructor> IndicatorInstance for RelativeStrengthIndexIns
 		let pos: ValueType = self.posma.next(&change.max(0.));
 		let neg: ValueType = self.negma.next(&change.min(0.)) * -1.;
 
-		let value = if pos != 0. || neg != 0. {
-			debug_assert!(pos + neg != 0.);
-			pos / (pos + neg)
-		} else {
-			0.5
-		};
+		// rounding residue of a running-sum average may leave `pos` and `neg` with opposite signs
+		let sum = pos + neg;
+		let value = if sum != 0. { pos / sum } else { 0.5 };
 
 		let oversold = self.cross_lower.next(&(value, self.cfg.zone)).analog();
 		let overbought = self.cross_upper.next(&(value, 1. - self.cfg.zone)).analog();
